@@ -155,9 +155,11 @@ impl LinkFlowState<role::SenderMarker> {
         );
 
         if let Some(link_credit_rcv) = flow.link_credit {
-            let link_credit = delivery_count_rcv
-                .saturating_add(link_credit_rcv)
-                .saturating_sub(state.delivery_count);
+            // delivery-count is a RFC-1982 sequence number: the deliveries the receiver has
+            // not seen yet are `delivery-count_snd - delivery-count_rcv` modulo 2^32, and they
+            // come out of the credit it granted (zero if they already exceed it)
+            let in_flight = state.delivery_count.wrapping_sub(delivery_count_rcv);
+            let link_credit = link_credit_rcv.saturating_sub(in_flight);
             state.link_credit = link_credit;
         }
 
